@@ -49,18 +49,22 @@ pub fn short_log(l: &[Rec]) -> String {
 pub struct Recorder {
   pub log: Arc<Mutex<Vec<Rec>>>,
   tok: Arc<()>,
+  pub label: String,
 }
 
 impl Recorder {
   pub fn new() -> Recorder {
-    Recorder { log: Arc::new(Mutex::new(vec![])), tok: sym::closure_token("subscriber") }
+    Recorder { log: Arc::new(Mutex::new(vec![])), tok: sym::closure_token("subscriber"), label: String::new() }
+  }
+  pub fn labelled(label: &str) -> Recorder {
+    Recorder { log: Arc::new(Mutex::new(vec![])), tok: sym::closure_token("subscriber"), label: label.to_string() }
   }
   pub fn push(&self, r: Rec) {
     self.log.lock().unwrap().push(r);
   }
   pub fn on_next(&self) -> impl Fn(Sym) + Send + Sync + 'static {
     let l = self.log.clone();
-    let tok = sym::closure_token("cb:next");
+    let tok = sym::closure_token(&format!("cb{}:next", self.label));
     move |x: Sym| {
       let _t = &tok;
       burn();
@@ -69,7 +73,7 @@ impl Recorder {
   }
   pub fn on_error(&self) -> impl Fn(RxError) + Send + Sync + 'static {
     let l = self.log.clone();
-    let tok = sym::closure_token("cb:error");
+    let tok = sym::closure_token(&format!("cb{}:error", self.label));
     move |e: RxError| {
       let _t = &tok;
       burn();
@@ -79,7 +83,7 @@ impl Recorder {
   }
   pub fn on_complete(&self) -> impl Fn() + Send + Sync + 'static {
     let l = self.log.clone();
-    let tok = sym::closure_token("cb:complete");
+    let tok = sym::closure_token(&format!("cb{}:complete", self.label));
     move || {
       let _t = &tok;
       burn();
